@@ -361,14 +361,9 @@ def domain(ctx):
             cases.append({"shape": s, "cls": "uniform"})
             cases.append({"shape": s, "cls": "btn_sameid"})
     rng = random.Random(ctx.seed)
-    for s in shapes.shapes_upto(5 if ctx.quick else 6):
-        for via in ("deepcopy", "deepcopy_after_layout", "deepcopy_of_list"):
-            cases.append({"shape": s, "cls": "btn", "via": via})
-            if shapes.size(s) >= 2:
-                cases.append({"shape": s, "cls": "expr", "via": via})
     for _ in range(60 if ctx.quick else 600):   # seeded random larger shapes
         cases.append({"shape": random_shape(rng, rng.randint(n + 1, 14)), "cls": rng.choice(["btn", "expr"]), "dupids": True})
-    return cases, "all %d binary tree shapes with <= %d nodes (plain nodes; expression-typed nodes for the smaller ones) + seeded random shapes up to 14 nodes; 3 orders (also with a start depth and a data object given positionally / by keyword) x every stop position (the stop signal alternately the library constant and an equal string built at run time); all look-ups on every node; the same on copies made by copy.deepcopy (of the root, after a layout run, of the post-order node list) of every shape <= 5 (6) nodes; for expression trees of 2..5 (thorough: 7) nodes, look-ups from every node repeated on the same objects after rotate / rotate twice / swapped operands / a new root / a replaced subtree at every node" % (
+    return cases, "all %d binary tree shapes with <= %d nodes (plain nodes; expression-typed nodes for the smaller ones) + seeded random shapes up to 14 nodes; 3 orders (also with a start depth and a data object given positionally / by keyword) x every stop position (the stop signal alternately the library constant and an equal string built at run time); all look-ups on every node; for expression trees of 2..5 (thorough: 7) nodes, look-ups from every node repeated on the same objects after rotate / rotate twice / swapped operands / a new root / a replaced subtree at every node" % (
         len(shapes.shapes_upto(n)), n)
 
 
@@ -420,7 +415,11 @@ def run(ctx, cases=None):
     for k, e in broken:
         res.violations.append(Violation("C14|constructing the tree raised %s|%s" % (e["setup_exc"], allcases[k]["cls"]),
                                         "building %s shape %s raised %s" % (allcases[k]["cls"], allcases[k]["shape"], e["setup_exc"]), allcases[k], ["setup"]))
+    res.extra["traversals_whose_visitor_prunes_the_tree_and_that_differ_from_the_live_walk"] = sum(1 for cl in fails.values() if any(c.startswith("note_") for c in cl))
     for eid, clauses in sorted(fails.items()):
+        clauses = [c for c in clauses if not c.startswith("note_")]       # a visitor that edits the tree while it is walked: outside the statement, reported only
+        if not clauses:
+            continue
         ev = events[eid - 1]
         res.violations.append(Violation(sig(ev, clauses), "traversal/look-up on %s shape %s fails %s" % (cases[eid - 1]["cls"], cases[eid - 1]["shape"], clauses), cases[eid - 1], clauses))
     return res
